@@ -10,7 +10,7 @@ FAMILIES = {
 PROPS = {
     "C14": dict(
         family="codec",
-        theorems=T("C14", "encode_size_is_model", "hexEncode_eq_spec", "hexEncode_length", "b64Encode_eq_spec", "b64Encode_length",
+        theorems=T("C14", "encode_size_is_model", "translated_encoders_are_model", "hexEncode_eq_spec", "hexEncode_length", "b64Encode_eq_spec", "b64Encode_length",
                    "hexDecodeAlloc_encode", "hexDecodeInto_encode", "b64DecodeAlloc_encode", "b64DecodeInto_encode",
                    "hexDecode_upper", "tables_inverse"),
         rule="exhaustive: every 3-byte group (2^24), 2-byte (2^16) and 1-byte (2^8) tail through encode + both decoders, as 4096-item "
@@ -145,7 +145,7 @@ MANIFEST_TEXT = {
         design_ref="DESIGN.md section 3, C14/C15",
         note="Trusted: Lean kernel, propext/Classical.choice/Quot.sound, the RFC spec definitions, the correspondence harness (ASan/UBSan build of /repo's headers), "
              "the regex table translator. Not verified: compiler, allocator.",
-        technique="Lean 4 proof over a hand model + exhaustive differential correspondence + regenerated tables"),
+        technique="Lean 4 proof over a hand model; encoders translated from the C++ on every run with bridge theorems generated = model; exhaustive differential correspondence + regenerated tables"),
     "C15": dict(
         text="Theorems (all texts over 256 byte values, all output sizes): the allocating decoders return ok exactly on valid text and throw codec_error otherwise "
              "(assertion unreachable), the caller-buffer decoders return the implied length exactly when the text is valid and fits and -1 otherwise, never store "
